@@ -224,6 +224,78 @@ def station_histories(ctx, hist):
                                "fresh_lon": b[1].tolist() if len(b) > 1 and not isinstance(b[0], str) else None})
 
 
+HP_DIRS = np.arange(0.0, 360.0, 15.0)
+HP_FREQ = {"A": 0.04 + 0.01 * np.arange(25), "B": 2 * (0.04 + 0.01 * np.arange(25))}
+HP_PEAKS = {"A": [(0.08, 200, 0.01, 20, 1.0), (0.18, 40, 0.02, 25, 0.5)], "B": [(0.20, 90, 0.015, 30, 1.0), (0.28, 90, 0.015, 30, 0.6)]}
+
+
+def hp_array(k):
+    """two swell systems on one of two frequency grids of the SAME shape; on grid B the two swells are neighbours that HP01's
+    spread criterion decides about (merged on B's own grid)."""
+    import xarray as xr
+    F, D = np.meshgrid(HP_FREQ[k], HP_DIRS, indexing="ij")
+    data = sum(amp * np.exp(-0.5 * ((F - f0) / sf) ** 2 - 0.5 * (((D - d0 + 180) % 360 - 180) / sd) ** 2) for f0, d0, sf, sd, amp in HP_PEAKS[k])
+    return xr.DataArray(data, coords={"freq": HP_FREQ[k].copy(), "dir": HP_DIRS.copy()}, dims=("freq", "dir"), name="efth")
+
+
+def hp_obs(x):
+    return np.asarray(x.spec.partition.hp01(swells=3).transpose("part", "freq", "dir").values, float)
+
+
+def hp_fresh():
+    import warnings
+    warnings.filterwarnings("ignore")
+    import wavespectra  # noqa
+    out = {}
+    for k in ("A", "B"):
+        out[k] = hp_obs(hp_array(k))      # each in ... the same pristine child: A first
+    return out
+
+
+def hp_fresh_b():
+    import warnings
+    warnings.filterwarnings("ignore")
+    import wavespectra  # noqa
+    return hp_obs(hp_array("B"))
+
+
+def hp01_grids(ctx):
+    """HP01 on arrays of one shape but different frequency grids, in every order, and on one array whose frequencies are reassigned
+    in place: each result is the one a pristine process gives for that array."""
+    from harness.core import run_forked
+    k1, fa = run_forked(hp_fresh)
+    k2, fb = run_forked(hp_fresh_b)
+    if k1 == "crash" or k2 == "crash":
+        ctx.violation({"where": "process", "kind": "crash", "stage": "hp01"}, "pristine HP01 evaluation crashed")
+        return
+    fresh = {"A": fa["A"], "B": fb}
+    for hist in (("A",), ("B",), ("A", "A"), ("A", "B"), ("B", "A"), ("B", "B"), ("A", "inplace"), ("B", "inplace")):
+        for observed in ("A", "B"):
+            def scenario(hist=hist, observed=observed):
+                import warnings
+                warnings.filterwarnings("ignore")
+                x = None
+                for h in hist:
+                    if h == "inplace":
+                        x = hp_array("A")
+                        hp_obs(x)
+                        x["freq"] = HP_FREQ[observed]
+                        x.values[...] = hp_array(observed).values
+                    else:
+                        hp_obs(hp_array(h))
+                return hp_obs(x if (x is not None and hist[-1] == "inplace") else hp_array(observed))
+            kind, got = run_forked(scenario)
+            ctx.case(("hp01-grids", hist, observed), True)
+            if kind == "crash":
+                ctx.violation({"stage": "hp01", "history": list(hist), "kind": "crash"}, "HP01 history %s crashed" % (hist,))
+            elif got.shape == fresh[observed].shape and np.array_equal(got, fresh[observed], equal_nan=True):
+                ctx.replayed()
+            else:
+                ctx.violation({"stage": "hp01", "history": list(hist), "op": "hp01", "observed": observed},
+                              "hp01 on array %s after earlier hp01 calls %s differs from a pristine process: %d vs %d non-empty partitions" %
+                              (observed, list(hist), int((np.nan_to_num(got).sum(axis=(1, 2)) > 0).sum()), int((np.nan_to_num(fresh[observed]).sum(axis=(1, 2)) > 0).sum())))
+
+
 def run(ctx):
     setup_repo_imports()
     import warnings
@@ -356,6 +428,7 @@ def run(ctx):
     # ---- the same histories on a station dataset: edits replace the station longitudes in place (version 2 = the same stations
     # written in [0,360] and one of them moved), the earlier call is a selection, the observation is a selection by each method
     station_histories(ctx, hist)
+    hp01_grids(ctx)
     if hist:
         ctx.sample({"kind": "history", "actions": [list(x) for x in hist[len(hist) // 2][0]], "observed": OBS_OPS[:5]})
     # static work area across interleaved partition calls of different shapes: H1 traces (pinit event) validated by WatershedTrace
